@@ -584,7 +584,7 @@ func TestC07(t *testing.T) {
 		}
 	}
 	r := evid.Rand(7)
-	n := evid.N(1500, 20000)
+	n := evid.N(1200, 20000)
 	tried, accepted := map[string]int{}, map[string]int{}
 	total, acc := 0, 0
 	for i := 0; i < n; i++ {
